@@ -1,4 +1,8 @@
 import EpdVerif.AuditCmd
 import EpdVerif.Props.C02
+import EpdVerif.Props.E2EHAll
+import EpdVerif.Props.E2EAAll
 import EpdVerif.Props.Panels
 #audit_namespace EpdVerif.Props.C02
+#audit_rec EpdVerif.Props.E2EH
+#audit_rec EpdVerif.Props.E2EA
